@@ -956,6 +956,7 @@ class TermCanvas(Canvas):
             char_spec = (self.attrspec, self.charset.current, char)
 
         x, y = position
+        chars = min(chars, self.width - x)
 
         while chars > 0:
             self.term[y].insert(x, char_spec)
@@ -975,6 +976,7 @@ class TermCanvas(Canvas):
             chars = 1
 
         x, y = position
+        chars = min(chars, self.width - x)
 
         while chars > 0:
             self.term[y].pop(x)
@@ -995,8 +997,7 @@ class TermCanvas(Canvas):
         if row > self.scrollregion_end:
             return  # below the scrolling region: ignored
 
-        if lines == 0:
-            lines = 1
+        lines = min(max(lines, 1), self.scrollregion_end - row + 1)
 
         while lines > 0:
             self.term.pop(self.scrollregion_end)
@@ -1017,8 +1018,7 @@ class TermCanvas(Canvas):
         if row > self.scrollregion_end:
             return  # below the scrolling region: ignored
 
-        if lines == 0:
-            lines = 1
+        lines = min(max(lines, 1), self.scrollregion_end - row + 1)
 
         while lines > 0:
             self.term.pop(row)
